@@ -73,6 +73,7 @@ def build_contract():
     # what a test learns about the symbol of the post-setUp state (slot 3) stays in that test
     test_fns.append(Fn("check_eq_a()", [("PUSH", 64), ("PUSH", 3), "SLOAD", "EQ", "ISZERO", ("PUSHL", "ne"), "JUMPI", "STOP", ("LABEL", "ne"), "STOP"]))
     test_fns.append(Fn("check_ret_b()", [("PUSH", 3), "SLOAD", ("PUSH", 0), "RETURN"]))
+    test_fns.append(Fn("check_cond_b()", [("PUSH", 64), ("PUSH", 3), "SLOAD", "EQ", ("PUSHL", "cb_bad"), "JUMPI", "STOP", ("LABEL", "cb_bad")] + panic(1)))
     k5 = [("PUSH", 5), ("PUSH", 0x200), "MSTORE", ("PUSH", 32), ("PUSH", 0x200), "SHA3"]
     test_fns.append(Fn("check_hash_a()", k5 + ["POP", "STOP"]))
     # keccak(x) == keccak(5) && x != 5  =>  Panic(1)
@@ -136,7 +137,7 @@ def run(chk: Check, tier: str):
         # histories in which the second test reads what the first one writes are always replayed
         kinds = ["storage", "transient", "balance", "code", "time"]
         conflicts = {(f"write_{k}", f"read_{k}") for k in kinds} | {(f"write_{k}", f"write_{k}") for k in kinds} | \
-                    {("eq_a", "ret_b"), ("ret_b", "eq_a"), ("ret_b", "ret_b"), ("annotated", "loopy"), ("loopy", "annotated"), ("loopy", "loopy"), ("alias_a", "alias_b"), ("alias_b", "alias_b"), ("alias_b", "alias_a"), ("inv_a", "inv_b"), ("inv_b", "inv_a"), ("write_storage", "inv_b"), ("hash_a", "hash_b"), ("hash_b", "hash_b"), ("hash_b", "hash_a")}
+                    {("eq_a", "ret_b"), ("ret_b", "eq_a"), ("ret_b", "ret_b"), ("annotated", "loopy"), ("loopy", "annotated"), ("loopy", "loopy"), ("alias_a", "alias_b"), ("alias_b", "alias_b"), ("alias_b", "alias_a"), ("inv_a", "inv_b"), ("inv_b", "inv_a"), ("write_storage", "inv_b"), ("hash_a", "hash_b"), ("hash_b", "hash_b"), ("hash_b", "hash_a"), ("eq_a", "cond_b"), ("cond_b", "cond_b"), ("cond_b", "eq_a")}
         must = [h for h in hists if len(h) == 2 and (h[0]["test"], h[1]["test"]) in conflicts]
         if len(must) != len(conflicts):
             raise MachineryError(f"TestRun.tla did not enumerate every conflicting pair: {len(must)} of {len(conflicts)}")
@@ -207,7 +208,7 @@ def run(chk: Check, tier: str):
     finally:
         cleanup(work)
     chk.cov["rule"] = (
-        "all orders with repetition of <= 2 (quick: all of length 1, every writer-then-reader pair, 30 sampled others of length 2) / <= 3 (thorough) of 20 tests "
+        "all orders with repetition of <= 2 (quick: all of length 1, every writer-then-reader pair, 30 sampled others of length 2) / <= 3 (thorough) of 21 tests "
         "(writers and readers of storage, transient storage, a balance, created code, block timestamp; two tests calling the symbolic address "
         "chosen by setUpSymbolic(address) (the per-path alias cache); a test with a function-level `@custom:halmos --loop 4` annotation and a test whose verdict depends on the loop bound; two invariant tests sharing the frontier cache), enumerated by TLC from TestRun.tla and replayed through one run_contract call each; "
         "per test the exit code must equal the model's and the normalised result must be the same in every history"
